@@ -18,6 +18,9 @@ Rs == 1..7
 Zc == -3..3
 \* LCFS polygon: the rectangle [3/2, 13/2] x [-5/2, 5/2] (half-integers: no node lies on its boundary)
 PolyInside(r, z) == 2 * r > 3 /\ 2 * r < 13 /\ 2 * z > -5 /\ 2 * z < 5
+\* limiter polygon: the L-shaped region (the rectangle above without its upper right corner r > 9/2, z > 1/2), concave,
+\* vertices (3/2,-5/2) (13/2,-5/2) (13/2,1/2) (9/2,1/2) (9/2,5/2) (3/2,5/2)
+LimInside(r, z) == PolyInside(r, z) /\ ~(2 * r > 9 /\ 2 * z > 1)
 \* toroidal angles with rational (cos, sin)
 Angles == << <<1, 0, 1>>, <<3, 4, 5>>, <<0, 1, 1>>, <<-4, 3, 5>>, <<-1, 0, 1>>, <<5, -12, 13>> >>      \* <<c, s, h>>: cos = c/h, sin = s/h
 
@@ -59,7 +62,7 @@ SameLength == PolDir[1] * PolDir[1] + PolDir[3] * PolDir[3] = NrmDir[1] * NrmDir
 \* the mapped function is constant on flux surfaces: nodes mirrored in z have the same value
 UpDownSymmetric == Psi(r, z) = Psi(r, -z)
 
-EmitCase == PrintT(ToJson([off |-> off, neg |-> neg, A |-> A, B |-> B, r |-> r, z |-> z, angle |-> Angles[ang], psin |-> PsiN, inside |-> Inside,
+EmitCase == PrintT(ToJson([off |-> off, neg |-> neg, inside_limiter |-> LimInside(r, z), A |-> A, B |-> B, r |-> r, z |-> z, angle |-> Angles[ang], psin |-> PsiN, inside |-> Inside,
                            map2d |-> Map2D, psi_axis |-> PsiAxis, psi_lcfs |-> PsiLcfs, grad |-> <<PsiR, PsiZ>>,
                            pol |-> PolDir, nrm |-> NrmDir, degenerate |-> Degenerate]))
 =============================================================================
